@@ -146,6 +146,18 @@ CHECKS = {
         note=TB + " Float model: SMT-LIB FloatingPoint with one NaN; FTZ/DAZ applied to operands and results; lax.cond = select with both branches traced.",
         technique="contract-based deductive verification: bit-precise QF_FP postconditions on the real closures / extracted statements, z3",
     ),
+    "C04": dict(
+        text=("Transition contract of one update with the step counter symbolic (so every step index of every history is covered): "
+              "the real _compute_stats keeps the statistics objects unless count % statistics_compute_steps = 0; the real "
+              "_pmap_compute_preconditioners (symbolic interval >= 2, and interval 1; root routine as a contract) keeps every "
+              "preconditioner and the diagnostics unless count % interval = 0 and otherwise stores gate(prev, Root(statistics')); "
+              "_update_preconditioners_fn dispatch, efficient_cond, the scheduled interval (>= 1, 1 or a multiple of 10), count+1 and "
+              "phase order of update_fn; Tearfree Shampoo/Sketchy _update keep blocks/sketches on non-refresh steps and advance count "
+              "by one. Warm-up boundary: C02-P1 / C05-P2. sharded_update_fn as a whole is not executed."),
+        design="7/C04",
+        note=TB + " Bit-identity on non-refresh steps is object identity / pointwise equality in the VC; lax.cond/while_loop per section 4.3.",
+        technique="contract-based deductive verification: transition contract with symbolic step counter, AST->VC, z3",
+    ),
 }
 
 NA_REASON = "check not built yet (build in progress); the planned contract kernel is described in DESIGN.md section 7"
